@@ -800,6 +800,6 @@ def _prove_lemma(eng, st, lem, res):
         else:
             ob = Obligation(label, "lemma", list(st.pc) + hyps, goal)
             record(label, discharge(eng, ob))
-    if ok:
+    if ok and getattr(lem, "assume", True):
         st.assume(eng.lemma_formula(st, lem))
         eng.contract.proved_lemmas.append(lem)
